@@ -16,6 +16,14 @@ import (
 
 const vhMaxDur12 = time.Duration(1) << 61
 
+// vhFresh: a submit time that is fresh on the clock in use (logical clock symbolically, the real one natively).
+func vhFresh() time.Time {
+	if api.Symbolic() {
+		return time.Unix(0, 1_000_000_000)
+	}
+	return time.Now()
+}
+
 // vhSubmitted builds a plan as Submit stores it (1 block, 1 sequence, 1 action).
 func vhSubmitted(i int, submit time.Time) *workflow.Plan {
 	p := shape.Plan(shape.Cfg{MinBlocks: 1, MaxBlocks: 1, MinSeqs: 1, MaxSeqs: 1, MinActions: 1, MaxActions: 1, WithState: true, Req: kit.Req{}})
@@ -37,7 +45,7 @@ func VerifC12Race() {
 	reg := kit.NewRegistry(mon)
 	e, err := New(context.Background(), vault, reg)
 	api.Assert(err == nil && e != nil, "New succeeds")
-	p := vhSubmitted(0, time.Unix(0, 1_000_000_000))
+	p := vhSubmitted(0, vhFresh())
 	mon.Track(p)
 	api.Assert(vault.Create(context.Background(), p) == nil, "Create succeeds")
 
@@ -75,7 +83,7 @@ func VerifC12Repeat() {
 	vault := kit.NewVault()
 	reg := kit.NewRegistry(mon)
 	e, _ := New(context.Background(), vault, reg)
-	p := vhSubmitted(0, time.Unix(0, 1_000_000_000))
+	p := vhSubmitted(0, vhFresh())
 	mon.Track(p)
 	vault.Create(context.Background(), p)
 	api.Assert(e.Start(context.Background(), p.ID) == nil, "first Start of a fresh plan is accepted")
@@ -132,4 +140,77 @@ func VerifC12Stale() {
 		e.Wait(context.Background(), p.ID)
 		api.Quiesce()
 	}
+}
+
+// VerifC01Cancel: the caller cancels the Context it passed to Start at an arbitrary point of the execution
+// ("Cancelling the Context will not Stop execution"): ordering and gating must be unaffected.
+func VerifC01Cancel() {
+	api.LogicalClock()
+	mon := kit.NewMon(kit.ModeOkFail)
+	vault := kit.NewVault()
+	reg := kit.NewRegistry(mon)
+	e, _ := New(context.Background(), vault, reg)
+	p := shape.Plan(shape.Cfg{MinBlocks: 2, MaxBlocks: 2, MinSeqs: 1, MaxSeqs: 1, MinActions: 1, MaxActions: 1, WithState: true, Req: kit.Req{}})
+	// the second block has pre-checks and post-checks; the plan has deferred checks
+	mkc := func(name string) *workflow.Checks {
+		return &workflow.Checks{ID: workflow.NewV7(), State: &workflow.State{}, Actions: []*workflow.Action{{ID: workflow.NewV7(), Name: name + ".a0", Descr: "c", Plugin: "check",
+			Timeout: 30 * time.Second, Req: kit.Req{}, State: &workflow.State{}}}}
+	}
+	b1 := p.Blocks[1]
+	b1.PreChecks = mkc("b1.pre")
+	b1.PostChecks = mkc("b1.post")
+	p.DeferredChecks = mkc("plan.deferred")
+	for _, b := range p.Blocks {
+		b.Concurrency = 1
+		for _, s := range b.Sequences {
+			for _, a := range s.Actions {
+				a.Timeout = 30 * time.Second
+			}
+		}
+	}
+	p.SubmitTime = vhFresh()
+	mon.Track(p)
+	vault.Create(context.Background(), p)
+
+	finished := map[string]bool{}
+	okv := map[string]bool{}
+	cancelled := false
+	cancelledMidRun := false
+	mon.OnExit = func(in *kit.Info, c *kit.Call) {
+		finished[in.Key] = true
+		okv[in.Key] = c.Verdict == kit.VOk
+	}
+	mon.OnEnter = func(in *kit.Info, c *kit.Call) {
+		if cancelled {
+			cancelledMidRun = true
+		}
+		switch in.Key {
+		case "b1.s0.a0":
+			api.Assert(finished["b0.s0.a0"] && okv["b0.s0.a0"], "C01: blocks execute in declared order, each gated on success")
+			api.Assert(finished["b1.pre.a0"] && okv["b1.pre.a0"], "C01: no sequence action before the block's pre-checks passed")
+		case "b1.post.a0":
+			api.Assert(finished["b1.s0.a0"], "C01: post-checks begin only after every started sequence finished")
+		case "b1.pre.a0":
+			api.Reach("block pre-check ran")
+		}
+	}
+	ctx, cancel := context.WithCancel(context.Background())
+	api.Spawn(func() { api.Yield("cancel"); cancel(); cancelled = true })
+	api.Assert(e.Start(ctx, p.ID) == nil, "Start of a submitted plan succeeds")
+	e.Wait(context.Background(), p.ID)
+	api.Quiesce()
+	if cancelledMidRun {
+		api.Reach("caller cancelled while the plan was running")
+	}
+	// what ran is decided by the verdicts alone, never by the caller's cancellation
+	b0ok := finished["b0.s0.a0"] && okv["b0.s0.a0"]
+	api.Assert(finished["b0.s0.a0"], "C01: the first block's action is invoked")
+	if b0ok {
+		api.Assert(finished["b1.pre.a0"], "C01: a block's pre-checks run when the block is reached (cancelling the caller's context does not skip them)")
+	}
+	api.Assert(finished["plan.deferred.a0"], "C07: deferred checks of an entered plan always run")
+	st := vault.Img[p.ID].Status
+	api.Assert(st == workflow.Completed || st == workflow.Failed, "C04: the plan reaches a terminal state")
+	allOK := b0ok && okv["b1.pre.a0"] && okv["b1.s0.a0"] && okv["b1.post.a0"] && okv["plan.deferred.a0"]
+	api.Assert((st == workflow.Completed) == allOK, "C04: the plan is Completed exactly when nothing failed")
 }
